@@ -270,6 +270,11 @@ func (c *MustacheParser) completeLexicalAnalysis() error {
 					tokenValue = variable
 				}
 
+				if operator1 == "!" {
+					tokenType = TokenComment
+					tokenValue = ""
+				}
+
 				if operator1 == "" {
 					tokenType = TokenVariable
 					if closingBracket == "}}}" {
